@@ -18,7 +18,8 @@ class C16(Prop):
     pid = "C16"
     sources = ["socialchoicekit/elicitation_voting.py", "socialchoicekit/elicitation_allocation.py", "socialchoicekit/distortion.py", "socialchoicekit/deterministic_allocation.py"]
     groups = {"karv": Group("karv", REQ, "DistCheck.karv_hyp_case", "DistCheck.chk_karv_hyp"),
-              "tsf": Group("tsf", REQ, "DistCheck.tsf_hyp_case", "DistCheck.chk_tsf_hyp")}
+              "tsf": Group("tsf", REQ, "DistCheck.tsf_hyp_case", "DistCheck.chk_tsf_hyp"),
+              "num": Group("num", REQ, "DistCheck.karv_num_case", "DistCheck.chk_karv_num")}
     rule = ("consistent (profile, valuation) pairs incl. adversarial ones (one agent holding almost all value, values one ulp either side of each threshold, zeros), all k / lambda, every tie-breaker; "
             "k-ARV winner and lambda-TSF allocation compared with the brute-force optimum (n <= 7 for allocations); the hypotheses H1-H4/Hmax of the proved distortion theorems are evaluated in Coq "
             "on the simulated values and float thresholds the code actually produced; the distortion helper is compared with max/min welfare ratio. "
@@ -109,6 +110,9 @@ class C16(Prop):
         tau = E.thresholds([V[i][fav[i]] for i in range(n)], m, k)
         tk = [t[k - 1] for t in tau]
         rho = rho_for(m, k)
+        if case["rule"] == "KARV" and case["seed"] % 2 == 1 and all(V[i][fav[i]] > 0 for i in range(n)):
+            # the numeric facts about the float thresholds assumed by C16_karv_end_to_end
+            return ("num", ct(cl([cq(frac(V[i][fav[i]])) for i in range(n)]), E.cVm(tau), cq(rho), cn(m), cn(k)))
         if case["rule"] == "KARV":
             out = obs["out"]; y = out[0] if isinstance(out, list) else out
             return ("karv", ct(E.cVm(V), E.cVm(obs["vt"]), cl([cn(x) for x in fav]), cl([cq(frac(x)) for x in tk]), cq(rho), cn(k), cn(y)))
